@@ -649,6 +649,9 @@ func (c *rcComp) Run(args []string) string {
 		return c.mon
 	}
 	c.ret, c.mon = "-", "-"
+	if len(args) == 4 && args[0] == "new" && args[1] == "gf" {
+		return c.gfRun(args) // client.NewImpl = getFirst over several client types (rc_gf.go)
+	}
 	sc, ok := rcParse(args)
 	if !ok {
 		return "bad-op"
@@ -1160,6 +1163,9 @@ func rcGenAttempt(r *rand.Rand, poll bool, mustEnd bool) string {
 }
 
 func (c *rcComp) Gen(r *rand.Rand, tier string) []string {
+	if r.Intn(12) == 0 {
+		return gfGen(r) // getFirst over several client types (rc_gf.go)
+	}
 	for {
 		mode := []string{"rb", "rb", "rb", "rc", "rc", "b", "c"}[r.Intn(7)]
 		rec := mode == "rb" || mode == "rc"
@@ -1276,5 +1282,6 @@ func (c *rcComp) Exhaustive(tier string) [][]string {
 			}
 		}
 	}
+	out = append(out, gfExhaustive(tier)...) // getFirst over several client types (rc_gf.go)
 	return out
 }
